@@ -19,7 +19,11 @@ from lts import LTS, skey, strip
 # ------------------------------------------------------------------ concretization
 WORDS = ["Package", "Source", "Version", "Depends", "X-Foo-Bar", "Maintainer", "Uploaders",
          "Build-Depends", "Homepage", "Vcs-Git", "Section", "Priority", "Architecture", "Zz9"]
-VALUE_POOL = ["1", "2", "foo (>= 1.0), bar", "x\n continued\n .\n more", "", "a: b", "#no comment", "éà 中"]
+VALUE_POOL = ["1", "2", "foo (>= 1.0), bar", "x\n continued\n .\n more", "", "a: b", "#no comment", "éà 中",
+              # character stress (notes/SIZE_STRESS.md part 2): not NFC-stable text and its precomposed twin,
+              # singletons, BOM / zero-width / NBSP inside a value, non-BMP
+              "cafe\u0301 \u212b\u2126 \ufb01", "caf\u00e9 \u00c5\u03a9 fi", "x\ufeffy\u200dz", "a\u00a0b\u3000c", "\U0001f600 \U0010ffff",
+              "t\n \u0301lone-mark\n \ufeffbom-line"]
 
 
 BOUNDARY = [1, 2, 8, 15, 16, 17, 31, 32, 33, 63, 64, 65, 72, 73, 80, 127, 128, 129, 255, 256, 257, 1023, 1024, 1025, 4095, 4096, 4097]
